@@ -294,7 +294,7 @@ func run(cfg lib.Cfg) error {
 	}
 
 	// random reorg histories
-	n := 45
+	n := 30
 	if cfg.Thorough() {
 		n = 2500
 	}
@@ -365,7 +365,7 @@ func run(cfg lib.Cfg) error {
 	}
 	// the same through the real jrpc2.Client shared by the source's tasks (head,
 	// header and block caches, maxreads = number of integrations) and the HTTP node
-	nr := 16
+	nr := 12
 	if cfg.Thorough() {
 		nr = 400
 	}
@@ -373,6 +373,49 @@ func run(cfg lib.Cfg) error {
 	// the reorg (fork below an indexed block) lands between the header exchange and the
 	// receipts exchange of one Get; the retry is served the cached header segment.  The
 	// switch position is enumerated over the first HTTP exchanges of the step.
+	// real client, headers + logs plan, batch 2 straddling the fork (blocks 5 | 6): the node has
+	// switched to the canonical version, but the [header, eth_getLogs] exchange of the load is
+	// answered ONCE from the orphaned version, with a matching log in the common block 5 and
+	// none in its block 6, while the canonical block 6 has a matching log.  The chain seed is
+	// searched so that the contents have this shape (deterministic: first seed that fits).
+	{
+		fits := func(seed uint64) bool {
+			rng := lib.NewRNG(seed)
+			o := ts.GenOpts{MaxTxs: 2, MaxLogs: 3, Traces: true, Decoys: true, EmptyProb: 10}
+			h := ts.NewHistory(rng.Fork(), 8, o)
+			h.Reorg(rng, 6, 4)
+			count := func(b *ts.Block, rowsOnly bool) int {
+				n := 0
+				for _, tx := range b.Txs {
+					for _, l := range tx.Logs {
+						if l.Kind == "transfer" || (!rowsOnly && l.Kind == "decoy-count") {
+							n++
+						}
+					}
+				}
+				return n
+			}
+			v1, v2 := h.Versions[0], h.Versions[1]
+			return count(v1.At(5), false) > 0 && count(v1.At(6), false) == 0 && count(v2.At(6), true) > 0
+		}
+		seed := uint64(0)
+		for sd := uint64(1); sd < 400 && seed == 0; sd++ {
+			if fits(sd) {
+				seed = sd
+			}
+		}
+		if seed == 0 {
+			return fmt.Errorf("no chain seed has the stale-logs shape")
+		}
+		for k := 1; k <= 3; k++ {
+			sc := world(fmt.Sprintf("corpus-real-stale-logs-below-fork-k%d", k), []string{"log"}, 2, 1, 8, seed)
+			sc.Real = true
+			sc.Acts = append(rounds(1, 2), ts.Act{Do: "reorg", Fork: 6, Len: 4},
+				ts.Act{Do: "xswitch", K: k, Ver: 1}, ts.Act{Do: "step", Tid: 1})
+			sc.Acts = append(sc.Acts, rounds(1, 10)...)
+			judge(sc, "corpus-real-stale-logs-below-fork")
+		}
+	}
 	// (a block of a cached segment can be read maxreads times: batch 1 with two integrations,
 	// batch 2 with three, so that the retry still finds the segment of the failed request)
 	for _, c := range []struct{ nig, batch int }{{2, 1}, {3, 2}} {
